@@ -106,7 +106,14 @@ fn model_case(text: &[u8], model: &Model<'_>, names: &Names, rng: &mut Rng, rep:
             rep.count(k, 1);
         }
         let term = if rng.chance(1, 3) { TextTerm::CrLf } else { TextTerm::Lf };
-        let trailing = rng.chance(2, 3);
+        let mut trailing = rng.chance(2, 3);
+        // a text cut off between the CR and the LF of its last terminator: the bare CR belongs
+        // to the last line (str::lines only strips it in front of an LF)
+        if !lines.is_empty() && rng.chance(1, 25) {
+            lines.last_mut().unwrap().text.push('\r');
+            trailing = false;
+            rep.count("inputs_ending_in_a_bare_cr", 1);
+        }
         let input = join_lines(&lines, term, trailing);
         let (exp, rewritten, passed) = expected_text(model, &lines, trailing);
         if rewritten > 0 && passed > 0 {
